@@ -23,24 +23,33 @@ The three 1-D filter Laplacians are internal to gen_laplacian_filter_kernel_3d; 
 kernel registry (rv.kernelspy) by access signature (one written field at offset 0, one read field at
 {0, +e_a, -e_a}) and called directly.  Only cells where the stencil fits (index >= reach) are compared.
 
-Deliberate breaks tried (tools/mut.sh --sed ..., quick tier): mutation -> mechanism that reported it
-  curl_3d.py            curl_y  "field_x[1, 0, 0] - field_x[-1, 0, 0]" -> "+"      -> curl_3d!=curl
-  curl_3d.py            curl_x  field_z[0, 1, 0] -> field_z[1, 0, 0] (axis swap)   -> curl_3d!=curl
-  outplane_field_curl_2d.py  (field[0, -1] - field[0, 1]) -> (field[0, 1] - field[0, -1]) -> outplane_curl_2d!=(d_y,-d_x)
-  inplane_field_curl_2d.py   field_x[1, 0] -> field_x[0, 1]                         -> inplane_curl_2d!=d_x f_y-d_y f_x
-  diffusion_flux_2d.py  "- 4 * field" -> "- 3 * field"                             -> diffusion_flux_2d!=c*laplacian
-  diffusion_flux_3d.py  "- 6 * field" -> "- 5 * field"                             -> diffusion_flux_3d!=c*laplacian
-  update_vorticity_from_velocity_forcing_2d.py  first "* prefactor" dropped        -> forcing_update_2d!=w+c*curl
-  update_vorticity_from_velocity_forcing_3d.py  "- velocity_field_z[0, 1, 0]" -> "+" (penalised)  -> penalised_update_3d!=w+c*curl(up-u)
-  update_vorticity_from_velocity_forcing_2d.py  "- velocity_field_y[0, 1]" -> "+" (penalised)     -> penalised_update_2d!=w+c*curl(up-u)
-  advection_flux_2d.py  first "(5 / 6)" -> "(4 / 6)"                                -> eno3_2d!=d(fv)
-  advection_flux_3d.py  z-front "velocity_z[0, 0, 0] > -velocity_z[1, 0, 0]" -> "<" -> eno3_3d!=d(fv)
-  laplacian_filter_3d.py  x kernel 0.25 -> 0.5                                      -> filter_lap1d!=-(dx^2/4)d2
-  laplacian_filter_3d.py  y kernel reads field[0, 0, +-1] (axis swap)               -> filter_lap1d-axes-not-xyz
-  divergence_3d.py      "0.5" line deleted                                          -> divergence_3d!=div
-  vorticity_stretching_flux_3d.py  vorticity_field_y[0, 0, 0] -> vorticity_field_z[0, 0, 0] -> stretching_flux_3d!=c*(w.grad)u
-  flow_simulators.py    np.flipud removed from the 3-D position_field               -> every 3-D operator (axis convention)
-All caught; unchanged tree silent for VERIF_SEED 0..5 (quick) and 0,1 (thorough).
+Deliberate breaks tried (tools/mut.sh --sed '<expr>' <file> C05, quick tier, seed 0; files under
+sopht/numeric/eulerian_grid_ops/stencil_ops_{2d,3d}/ unless noted): mutation -> VIOLATION mechanism
+  M1  curl_3d.py  curl_y "field_x[1,0,0] - field_x[-1,0,0]" -> "+" (sign)        -> curl_3d!=curl
+  M2  curl_3d.py  curl_x field_z[0,1,0] -> field_z[1,0,0] (axis swap)             -> curl_3d!=curl
+  M23 curl_3d.py  curl_z "prefactor *" dropped                                    -> curl_3d!=curl
+  M3  outplane_field_curl_2d.py  (field[0,-1]-field[0,1]) -> (field[0,1]-field[0,-1]) -> outplane_curl_2d!=(d_y,-d_x)
+  M4  inplane_field_curl_2d.py   field_x[1,0] -> field_x[0,1] (axis swap)         -> inplane_curl_2d!=d_x f_y-d_y f_x
+  M5  diffusion_flux_2d.py  centre weight 4 -> 3                                  -> diffusion_flux_2d!=c*laplacian
+  M6  diffusion_flux_3d.py  centre weight 6 -> 5                                  -> diffusion_flux_3d!=c*laplacian
+  M7  update_vorticity_from_velocity_forcing_2d.py  forcing "* prefactor" dropped -> forcing_update_2d!=w+c*curl
+  M17 update_vorticity_from_velocity_forcing_3d.py  forcing z "- f_x[0,1,0]" -> "+" -> forcing_update_3d!=w+c*curl
+  M22 update_vorticity_from_velocity_forcing_3d.py  y-comp "w = w + p*(..)" -> "w = p*(..)" -> forcing_update_3d!=w+c*curl
+  M8  update_vorticity_from_velocity_forcing_3d.py  penalised "- velocity_field_z[0,1,0]" -> "+" -> penalised_update_3d!=w+c*curl(up-u)
+  M9  update_vorticity_from_velocity_forcing_2d.py  penalised "- velocity_field_y[0,1]" -> "+"   -> penalised_update_2d!=w+c*curl(up-u)
+  M10 advection_flux_2d.py  first (5/6) -> (4/6) (x-front, upwind-left branch)    -> eno3_2d!=d(fv)
+  M11 advection_flux_3d.py  z-front switch "v[0,0,0] > -v[1,0,0]" -> "<"          -> eno3_3d!=d(fv)   (cubic, one-signed v)
+  M12 laplacian_filter_3d.py  x kernel 0.25 -> 0.5                                -> filter_lap1d!=-(dx^2/4)d2
+  M13 laplacian_filter_3d.py  y kernel reads field[0,0,+-1] (axis swap)           -> filter_lap1d-axes-not-xyz
+  M14 divergence_3d.py  factor 0.5 -> 1.0                                         -> divergence_3d!=div
+  M18 divergence_3d.py  field_y[0,1,0] -> field_y[1,0,0] (axis swap)              -> divergence_3d!=div
+  M19 divergence_3d.py  "- field_z[-1,0,0]" -> "+"                                -> divergence_3d!=div
+  M15 vorticity_stretching_flux_3d.py  vorticity_field_y[0,0,0] -> vorticity_field_z[0,0,0] (component mix-up) -> stretching_flux_3d!=c*(w.grad)u
+  M16 sopht/simulator/flow/flow_simulators.py  np.flipud removed from the 3-D position_field (x no longer along the
+      last axis / component 0)                                                     -> curl_3d!=curl and every other 3-D operator
+21/21 caught (first witnesses are on the exact leg, e.g. M5: Laplacian of the constant 3 gives 192 instead of 0 on
+the 7x8 grid with dx=1/8).  Unchanged tree: exit 0 for VERIF_SEED 0..5 (quick, 17-27 s on 8 workers) and 0,1
+(thorough, ~90 s); exact leg 0 ulp everywhere in both precisions, noise leg max err/tol 0.052 (headroom 19x).
 """
 import itertools
 
@@ -69,11 +78,11 @@ ASSUMPTIONS = [
     "second-order accuracy for smooth fields follows from exactness on P2 by Taylor's theorem (mathematics, not observed)",
 ]
 REQUIRE = {
-    "obligations": {"quick": 7900, "thorough": 40000},
+    "obligations": {"quick": 7900, "thorough": 36000},
     # complete finite set on the three dyadic grids: per precision 216 (2-D operators) + 240 (3-D diffusion)
     # + 360 (curl, divergence) + 360 (updates, stretching) + 360 (filter Laplacians) = 1536
     "obligations_exact_leg": 3072,
-    "basis_sweeps_complete": {"quick": 320, "thorough": 1500},
+    "basis_sweeps_complete": {"quick": 320, "thorough": 1470},
     "eno3_cells_faces_upwind_differently_diverging": 50,
     "eno3_cells_faces_upwind_differently_converging": 50,
     "eno3_cells_same_upwind_cubic": 1000,
